@@ -28,3 +28,49 @@ package account
 //@   requires a != nil
 //@   modifies as.index[*], as.swaps[*]
 //@   ensures validAccount(result) && result.accountType == 3
+//
+//@ func (*Registry).MustGetPath
+//@   trusted
+//@   modifies as.index[*], as.swaps[*]
+//@   ensures validAccount(result)
+//
+//@ func (*Registry).SwapType
+//@   trusted
+//@   requires validAccount(a)
+//@   modifies as.index[*], as.swaps[*]
+//@   ensures validAccount(result)
+//
+// A mapping is well formed when levels and suffixes are not negative (the flag parser must ensure it).
+//@ def wfMapping(m Mapping) bool := forall i int :: {m[i]} 0 <= i && i < len(m) ==> m[i].Level >= 0 && m[i].Suffix >= 0
+//
+//@ def ruleMatches(r Rule, s string) bool := r.Regex == nil || rematch(r.Regex, s)
+//
+//@ func (Rule).Match
+//@   ensures result.2 <==> ruleMatches(rule, s)
+//@   ensures result.2 ==> result.0 == rule.Level && result.1 == rule.Suffix
+//@   ensures !result.2 ==> result.0 == 0 && result.1 == 0
+//
+// Level: the first rule that matches decides.
+//@ func (Mapping).Level
+//@   ensures result.2 <==> (exists i int :: 0 <= i && i < len(m) && ruleMatches(m[i], s))
+//@   ensures result.2 ==> (exists i int :: 0 <= i && i < len(m) && ruleMatches(m[i], s) && result.0 == m[i].Level && result.1 == m[i].Suffix
+//@        && (forall j int :: {m[j]} 0 <= j && j < i ==> !ruleMatches(m[j], s)))
+//@   ensures !result.2 ==> result.0 == 0 && result.1 == 0
+//@   loop 1 invariant 0 <= $i && $i <= len(m) && (forall j int :: {m[j]} 0 <= j && j < $i ==> !ruleMatches(m[j], s))
+//
+// Shorten (the mapper returned by account.Shorten): an account not matched by any rule is returned
+// unchanged, level 0 hides it (nil); in every case NOTHING reachable from the given account is
+// modified - in particular not the account's own segments (frame: only the registry tables change).
+//@ func Shorten$1
+//@   requires validAccount(a) && wfMapping(m) && reg != nil && len(a.segments) >= 1
+//@   modifies reg.index[*], reg.swaps[*]
+//@   callback MustGetPath=0
+//@   ensures @nomatch: (forall i int :: {m[i]} 0 <= i && i < len(m) ==> !ruleMatches(m[i], a.name)) ==> result == a
+//@   ensures @hidden: (exists i int :: 0 <= i && i < len(m) && ruleMatches(m[i], a.name) && m[i].Level == 0
+//@        && (forall j int :: {m[j]} 0 <= j && j < i ==> !ruleMatches(m[j], a.name))) ==> result == nil
+//@   ensures @path: tlen() == old(tlen()) + 1 ==> (exists i int :: 0 <= i && i < len(m) && ruleMatches(m[i], a.name)
+//@        && (forall j int :: {m[j]} 0 <= j && j < i ==> !ruleMatches(m[j], a.name))
+//@        && len(targ("MustGetPath", 0, old(tlen()))) == m[i].Level + m[i].Suffix
+//@        && (forall k int :: {targ("MustGetPath", 0, old(tlen()))[k]} 0 <= k && k < m[i].Level ==> targ("MustGetPath", 0, old(tlen()))[k] == a.segments[k])
+//@        && (forall k int :: {targ("MustGetPath", 0, old(tlen()))[m[i].Level + k]} 0 <= k && k < m[i].Suffix ==> targ("MustGetPath", 0, old(tlen()))[m[i].Level + k] == a.segments[len(a.segments) - m[i].Suffix + k]))
+//@   ensures @lookup: tlen() <= old(tlen()) + 1 && (tlen() == old(tlen()) ==> result == a || result == nil)
